@@ -21,11 +21,11 @@ ASSUMPTIONS = ["vlib.refsim gate matrices are the documented definitions (cross-
                "only cirq and sympy backends are installed; qulacs/qiskit/qdk/stim/braket/pennylane translators cannot be executed",
                "sampled mode: chi-square rejection at p<1e-9 and exact support inclusion, RNG seeded per case"]
 ANCHORS = [
-    ("tangelo/linq/translator/translate_cirq.py", "65-125", "cirq per-gate mapping and control handling"),
-    ("tangelo/linq/translator/translate_sympy.py", "28-199", "sympy operator product and rotation matrices"),
-    ("tangelo/linq/target/backend.py", "640-704", "amplitude index -> bitstring and sampling"),
-    ("tangelo/linq/target/target_cirq.py", "298-308", "cirq plain simulation path / initial_state plumbing"),
-    ("tangelo/linq/target/target_sympy.py", "62-92", "sympy bitstring reversal and statevector extraction"),
+    ("tangelo/linq/translator/translate_cirq.py", "translate_c_to_cirq", "cirq per-gate mapping and control handling"),
+    ("tangelo/linq/translator/translate_sympy.py", "rx_gate,ry_gate,rz_gate,p_gate,controlled_gate,get_sympy_gates,translate_c_to_sympy", "sympy operator product and rotation matrices"),
+    ("tangelo/linq/target/backend.py", "_statevector_to_frequencies,_int_to_binstr", "amplitude index -> bitstring and sampling"),
+    ("tangelo/linq/target/target_cirq.py", "simulate_circuit", "cirq plain simulation path / initial_state plumbing"),
+    ("tangelo/linq/target/target_sympy.py", "simulate_circuit", "sympy bitstring reversal and statevector extraction"),
 ]
 REQUIRED = {"cirq_statevector": 50, "cirq_frequencies": 50, "cirq_translated_unitary": 30, "cirq_sampled": 10,
             "sympy_statevector": 10, "sympy_frequencies": 10, "single_gate_placement": 50}
